@@ -350,7 +350,7 @@ def e2e(chk, rng):
                 continue
             chk.disagreements += 1
             why, detail = cl
-            if why is None or not all(chk.known(k, True) for k in why):
+            if why is None or not all(chk.known(k, False) for k in why):
                 chk.violation("failing-input",
                               {"what": "two runs on the same project and options differ in a way no recorded "
                                        "finding explains", "run": label, "seeds": [s0, seed], "options": o,
@@ -370,6 +370,7 @@ WIT_ANCHORS = {"src/a.f90": "module ma\n  integer :: x\n    !! doc of x in a\nen
 WIT_USES = {"src/a.f90": "module ma\nend module ma\n", "src/b.f90": "module mb\nend module mb\n",
             "src/d.f90": "module md\nend module md\n",
             "src/c.f90": "module mc\n  use ma\n  use mb\n  use md\nend module mc\n"}
+WIT_FOUR = {f"src/{c}.f90": f"module m{c}\n  integer :: v{c}\n    !! doc of v{c}\nend module m{c}\n" for c in "abcd"}
 WIT_TWINS = {"src/a.f90": "module m\n  integer :: xa\nend module m\n",
              "src/b.f90": "module m\n  integer :: xb\nend module m\n"}
 WIT_KIDS = {"src/a.f90": "module ma\n  type :: base\n    integer :: i\n  end type\n"
@@ -378,30 +379,31 @@ WIT_KIDS = {"src/a.f90": "module ma\n  type :: base\n    integer :: i\n  end typ
 
 
 def differ(files, opts, seeds, kinds, attempts):
-    """run until two runs differ; -> (still fails, explained by the given findings only)"""
+    """several runs of one project in one directory -> (the recorded findings that are NEEDED to explain the
+    differences observed, whether every difference is explained, a sample difference)"""
     trees = R.subprocess_runs(files, [(opts, s, None) for s in seeds][:attempts])
-    ok = [mask(t[2]) for t in trees if t[0] == 0]
+    ok = [t[2] for t in trees if t[0] == 0]
     if len(ok) < 2:
-        return False, True, "runs failed"
-    fails, clean, detail = False, True, None
+        return set(), True, "runs failed: " + trees[0][1][-300:]
+    needed, clean, detail = set(), True, None
     for t in ok[1:]:
         cl = R.classify(ok[0], t, set(kinds))
         if cl is not None:
-            fails = True
             detail = cl[1]
             if cl[0] is None:
                 clean = False
-    return fails, clean, detail
+            else:
+                needed.update(cl[0])
+    return needed, clean, detail
 
 
 def findings(chk, rng):
     quick = chk.tier == "quick"
     checks = [
         ("file-order-anchors", WIT_ANCHORS, {"search": "false"}, list(range(1, 9)), ["file-order-anchors"]),
-        ("file-order-search-db", WIT_USES, {"search": "true"}, list(range(1, 7)),
-         ["file-order-search-db", "uses-set-order"]),
-        ("file-order-modules-json", WIT_USES, {"externalize": "true"}, list(range(1, 7)),
-         ["file-order-modules-json", "uses-set-order"]),
+        ("file-order-search-db", WIT_FOUR, {"search": "true"}, list(range(1, 7)), ["file-order-search-db"]),
+        ("file-order-modules-json", WIT_FOUR, {"externalize": "true"}, list(range(1, 7)),
+         ["file-order-modules-json"]),
         ("uses-set-order", WIT_USES, {}, [3] * 8, ["uses-set-order"]),
         ("toposort-id-order", WIT_TWINS, {}, [3] * 8, ["toposort-id-order"]),
         ("inheritedby-children-order", WIT_KIDS, {"graph": "true"}, list(range(1, 6)), ["inheritedby-children-order"]),
@@ -411,7 +413,8 @@ def findings(chk, rng):
         pool_run = ex.submit(R.subprocess_run, WIT_KIDS,
                              {"graph": "true", "graph_dir": "./graphs", "parallel": "2"}, 1)
         rc, out, tree, _ = pool_run.result()
-    for (key, files, opts, seeds, kinds), (fails, clean, detail) in zip(checks, outcomes):
+    for (key, files, opts, seeds, kinds), (needed, clean, detail) in zip(checks, outcomes):
+        fails = key in needed
         chk.count(("finding", key), sample={"finding": key, "still_differs": fails, "first_difference": detail})
         if not clean:
             chk.violation("failing-input", {"what": f"the witness of finding {key} differs in more than the "
